@@ -408,6 +408,14 @@ func checkNilContract(p *Program, r *Report, reach map[*ssa.Function]bool) {
 						if !c.IsInvoke() && len(c.Args) > 0 && c.Args[0] == v && c.StaticCallee() != nil && c.StaticCallee().Signature.Recv() != nil {
 							deref = "method call " + c.StaticCallee().Name()
 						}
+						// handed to an in-package function that dereferences the parameter unguarded
+						if g := c.StaticCallee(); g != nil && g.Pkg == p.Pkg && deref == "" {
+							for k, a := range c.Args {
+								if a == v && k < len(g.Params) && paramDerefUnguarded(g.Params[k]) {
+									deref = "argument of " + funcKey(g) + ", which dereferences it without a nil check"
+								}
+							}
+						}
 					case *ssa.MakeInterface:
 						deref = "conversion to an interface (a typed nil that callers cannot detect)"
 					case *ssa.Store:
@@ -429,6 +437,31 @@ func checkNilContract(p *Program, r *Report, reach map[*ssa.Function]bool) {
 		}
 	}
 	r.floor("NIL-CONTRACT", sites, 6, "call sites of functions that may return nil without an error")
+}
+
+// paramDerefUnguarded: the parameter is dereferenced (field access, load,
+// method call on it) somewhere in its function without a dominating nil check.
+func paramDerefUnguarded(pa *ssa.Parameter) bool {
+	for _, ref := range *pa.Referrers() {
+		ub := ref.Block()
+		if ub == nil {
+			continue
+		}
+		is := false
+		switch u := ref.(type) {
+		case *ssa.FieldAddr:
+			is = u.X == pa
+		case *ssa.UnOp:
+			is = u.Op == token.MUL && u.X == pa
+		case ssa.CallInstruction:
+			c := u.Common()
+			is = !c.IsInvoke() && len(c.Args) > 0 && c.Args[0] == pa && c.StaticCallee() != nil && c.StaticCallee().Signature.Recv() != nil
+		}
+		if is && !nonNilGuarded(pa, ub) {
+			return true
+		}
+	}
+	return false
 }
 
 // ---------------------------------------------------------------------------
